@@ -325,6 +325,9 @@ SPECIAL = [("same-class-and-method-name-in-two-definitions", same_class_name_cas
            ("built-ins-do-not-leak-into-the-events-own-kwargs", leak_case)]
 
 
+MIN_CASES = 3000  # a loaded machine does not shrink what is explored below this (time cap: 10x the budget)
+
+
 def run(limit_s, seed, max_named=2):
     import warnings
     warnings.simplefilter("ignore")
@@ -341,7 +344,7 @@ def run(limit_s, seed, max_named=2):
         if want != got:
             return {"cases": n, "violation": {"kind": kind, "expected": want, "observed": got}}
     for shape in all_shapes:
-        if time.time() - t0 > limit_s:
+        if time.time() - t0 > limit_s and (n >= MIN_CASES or time.time() - t0 > 10 * limit_s):
             exhaustive = False
             break
         for how in hows:
